@@ -136,7 +136,8 @@ impl World for Experiment {
                     p.hi = r.hi;
                 }
                 p.dim = dim.max(1);
-                p.name = format!("problem{i}");
+                // names with dots and dashes are legal file-name stems
+                p.name = match i { 0 => format!("problem{i}"), 1 => format!("sphere.d{i}"), _ => format!("f-{i}.v2.shifted") };
                 p
             })
             .collect();
